@@ -53,6 +53,7 @@ class Ctx:
 
     def loc(self, f_or_m, node: ast.AST) -> str:
         m = f_or_m.module if isinstance(f_or_m, FuncInfo) else f_or_m
+        m = self.prog.origin(m, node)  # a statement of a helper written out into f is located where it was written
         return f"{m.relpath}:{getattr(node, 'lineno', 0)}"
 
 
@@ -134,9 +135,9 @@ def callee_names(ctx: Ctx, f: FuncInfo, call: ast.Call, V: str | None = None) ->
         if t.kind == "external" and t.fullname:
             out.add(t.fullname)
         elif t.kind == "repo" and t.frame is not None:
-            out.add(t.frame.func.fq)
+            out |= ctx.prog.aliases_of(t.frame.func)  # the defining name and every re-export of it
         elif t.kind == "ctor" and t.cls is not None:
-            out.add(t.cls.fq)
+            out |= ctx.prog.aliases_of(t.cls)
     return out
 
 
@@ -209,3 +210,37 @@ def reaching_defs(g, name: str, at) -> list:
         if g.reach_avoiding([d], lambda x: x is at, lambda x: x is not d and x is not at and x in defs) is not None:
             out.append(d)
     return out
+
+
+class OnlyRule:
+    """Forward one rule of another property's rule function to this check under a new name; drop the rest."""
+
+    def __init__(self, chk, src: str, dst: str, suffix: str, text: str) -> None:
+        self._chk, self._src, self._dst, self._suffix, self._text = chk, src, dst, suffix, text
+        self.notes: dict = {}
+        self.tier = chk.tier
+
+    def rule(self, rule: str, text: str) -> None:
+        if rule == self._src:
+            self._chk.rule(self._dst, self._text)
+
+    def instance(self, rule: str, n: int = 1) -> None:
+        if rule == self._src:
+            self._chk.instance(self._dst, n)
+
+    def ok(self, rule: str, construct: str, why: str, loc: str = "", sample: bool = True) -> None:
+        if rule == self._src:
+            self._chk.ok(self._dst, construct, why, loc, sample=sample)
+
+    def refute(self, rule: str, key: str, what: str, loc: str = "", path=None, **extra) -> None:
+        if rule == self._src:
+            self._chk.refute(self._dst, key, what + self._suffix, loc, path, **extra)
+
+    def floor(self, *a, **k) -> None:
+        pass
+
+    def assume(self, *a) -> None:
+        pass
+
+    def run_rule(self, fn, *args) -> None:
+        fn(*args, self)
